@@ -48,6 +48,15 @@ claim('C20', 'verus',
       'ASSUMED well-formedness of compute_line_starts (Peekable<Chars> is outside Verus; cross-checked by the replay runner on every generated text). Not decided: symbol ranges, server entry points.',
       'DESIGN.md §4 C20')
 
+claim('C16', 'verus',
+      'contract-based deductive verification (Verus) of the real parser event-accounting functions, extracted mechanically on every run',
+      'Clause decided (the listed mechanism): every lexed token, trivia included, is advanced exactly once. The 14 Parser functions that touch events/leading/token_idx '
+      '(raw_advance, advance, skip_trivia, advance_by_*_trivia, open, close, current/nth/is_eof, parse_file) carry Verus contracts around one accounting invariant; parse_file ensures '
+      '#Advance events == #tokens - 1 (the EOF sentinel) and leading == 0, for all token lists with no bound; the internal `unreachable!()` arms are proved unreachable. '
+      'The ~150 grammar functions are covered by an assumed contract plus a syntactic frame scan. A replay runner parses generated texts with the real crate and checks the tree text byte for byte.',
+      'Trusted: Verus/Z3, vstd, rewrites N1-N8, the ASSUMED contract of parse_element (frame scan is a scan, not a proof), lexer output shape. Not decided: lexer partition, build_tree, error spans, re-parse equality.',
+      'DESIGN.md §4 C16')
+
 NA_REASONS = {
  'C01': 'quantifies over all programs and the behaviour of emitted machine code of two generators (one written in Dora); no function contract can state it',
  'C02': 'relational property between two compilers over all programs and run-time values; memory safety of generated code is not a property of a Rust function',
